@@ -3,6 +3,7 @@
 //! for the Lean driver, the implementation's canonical answer lines, and a JSON report.
 
 mod c02;
+mod c09;
 mod prog;
 mod rng;
 
@@ -46,6 +47,7 @@ fn main() {
     }
     match cmd {
         "compile" => c02::main(&args),
+        "roles" => c09::main(&args),
         "shrink" => c02::shrink_main(&args),
         _ => {
             eprintln!("unknown subcommand {cmd}");
